@@ -41,12 +41,14 @@ def unboundedReceive (s : Bytes) := receive (fun _ => true) s
 def boundedReceive (max : Nat) (s : Bytes) := receive (fun size => decide (size ≤ max)) s
 
 /-- with the codec: `UnmarshalVT` runs only on a completely read payload -/
+def decodeWith {μ : Type} (dec : Bytes → Option μ) : Except RecvErr Bytes → Except RecvErr μ
+  | .ok p => match dec p with
+    | some m => .ok m
+    | none => .error .decode
+  | .error e => .error e
+
 def recvMsg {μ : Type} (dec : Bytes → Option μ) (check : Nat → Bool) (s : Bytes) : Except RecvErr μ × Bytes :=
-  match receive check s with
-  | (.ok p, rest) => match dec p with
-    | some m => (.ok m, rest)
-    | none => (.error .decode, rest)
-  | (.error e, rest) => (.error e, rest)
+  (decodeWith dec (receive check s).1, (receive check s).2)
 
 def sendMsg {μ : Type} (enc : μ → Bytes) (m : μ) : Bytes := send (enc m)
 
